@@ -512,6 +512,8 @@ pub struct Interp<'h> {
     step: usize,
     transport: TransportType,
     last_drop_peer: Option<SocketAddr>,
+    /// key index of the last set_local_credentials
+    local_set: Option<u8>,
     /// steps whose operation must, per the model, change nothing about any transaction
     /// (refused duplicate send, response for an id that is not outstanding, incoming
     /// request/indication, send of a non-request)
@@ -569,6 +571,7 @@ impl<'h> Interp<'h> {
             step: 0,
             transport,
             last_drop_peer: None,
+            local_set: None,
             noeffect: vec![],
             forged: vec![],
             drained: vec![],
@@ -641,6 +644,26 @@ impl<'h> Interp<'h> {
 
     /// observations made after every call
     fn check_observables(&mut self) -> Result<(), Disc> {
+        // the credentials the agent reports are the ones it was last given (and so the ones C07's
+        // verdicts are stated in terms of)
+        let got = self.agent.remote_credentials();
+        let want = self.model.remote.as_ref().map(|c| c.to_lib());
+        if got != want {
+            return Err(self.d(
+                "C07",
+                "c07-credentials-readback",
+                format!("remote_credentials() = {:?}, the last set_remote_credentials gave {:?}", got, want),
+            ));
+        }
+        let got = self.agent.local_credentials();
+        let want = self.local_set.map(|k| creds_k(k).to_lib());
+        if got != want {
+            return Err(self.d(
+                "C07",
+                "c07-credentials-readback",
+                format!("local_credentials() = {:?}, the last set_local_credentials gave {:?}", got, want),
+            ));
+        }
         let all_ids: Vec<u128> = (0..N_IDS).map(pool_id).collect();
         for (i, id) in all_ids.iter().enumerate() {
             let got = self.agent.request_transaction(TransactionId::from(*id)).map(|r| r.peer_address());
@@ -1522,6 +1545,7 @@ impl<'h> Interp<'h> {
             }
             Op::SetLocalCreds(k) => {
                 self.agent.set_local_credentials(creds_k(*k % 3).to_lib());
+                self.local_set = Some(*k % 3);
             }
         }
         self.check_observables()
